@@ -4,7 +4,7 @@ use crate::p12::{tree_binary, tree_unary};
 use crate::spec::*;
 use crate::{ensure, fail};
 use fidget_core::context::Tree;
-use fidget_shapes::types::{Vec2, Vec3};
+use fidget_shapes::types::{Axis, Plane, Vec2, Vec3};
 use fidget_shapes as fs;
 use proptest::collection::vec;
 use proptest::prelude::*;
@@ -29,9 +29,16 @@ pub enum Sh {
     Move { t: Box<E>, o: [i16; 3], form: u8, vf: VForm },
     Scale { t: Box<E>, s: [i16; 3], form: u8, vf: VForm },
     ScaleUniform { t: Box<E>, s: i16, form: u8 },
-    ReflectX { t: Box<E>, o: i16, form: u8 },
-    /// order: permutation index of (tree, angle, center) for the positional form
-    RotateZ { t: Box<E>, angle: Option<i16>, center: Option<[i16; 3]>, form: u8, order: u8, vf: VForm },
+    /// which: 0 reflect_x, 1 reflect_xy, 2 reflect_y, 3 reflect_z
+    ReflectX { t: Box<E>, o: i16, form: u8, #[serde(default)] which: u8 },
+    /// order: permutation index of (tree, angle, center) for the positional form;
+    /// which: 0 rotate_z, 1 rotate_x, 2 rotate_y
+    RotateZ { t: Box<E>, angle: Option<i16>, center: Option<[i16; 3]>, form: u8, order: u8, vf: VForm, #[serde(default)] which: u8 },
+    /// rotate about a general axis; `axis` None = omitted (default Z)
+    Rotate { t: Box<E>, axis: Option<AxisSpec>, angle: Option<i16>, center: Option<[i16; 3]>, form: u8, order: u8, vf: VForm },
+    /// reflect about a plane; `plane` None = omitted (default YZ);
+    /// form: 0 map, 1 tree + map, 2 chained + map, 3 positional (tree, plane), 4 positional (plane, tree)
+    Reflect { t: Box<E>, plane: Option<PlaneSpec>, form: u8 },
     RevolveY { t: Box<E>, o: i16, form: u8 },
     ExtrudeZ { t: Box<E>, lo: i16, hi: i16, form: u8 },
     RepeatX { t: Box<E>, r: i16, o: i16, form: u8 },
@@ -42,6 +49,91 @@ pub enum Sh {
     Difference { a: Box<E>, b: Box<E>, map: bool },
     Inverse { t: Box<E>, form: u8 },
     Blend { a: Box<E>, b: Box<E>, r: i16, map: bool },
+}
+
+/// An axis: a named one (0 x, 1 y, 2 z) or a small integer vector, and the way it is written
+#[derive(Clone, Debug, Serialize, Deserialize)]
+pub struct AxisSpec {
+    /// 0..=2 named axis, 3 general vector `v`
+    pub which: u8,
+    pub v: [i8; 3],
+    /// named: 0 axis("x"), 1 axis('x'), 2 axis([1, 0, 0]) (or [1, 0] for x / y), 3 axis(vec3(..)), 4 axis(x)
+    /// general: axis([a, b, c]) or axis(vec3(a, b, c))
+    pub form: u8,
+}
+
+#[derive(Clone, Debug, Serialize, Deserialize)]
+pub struct PlaneSpec {
+    /// Some(0 xy, 1 yz, 2 zx): plane("xy") ...; None: plane(<axis>) or plane(<axis>, offset)
+    pub named: Option<u8>,
+    pub axis: AxisSpec,
+    pub offset: Option<i16>,
+}
+
+impl AxisSpec {
+    fn vec(&self) -> [i8; 3] {
+        match self.which % 4 {
+            0 => [1, 0, 0],
+            1 => [0, 1, 0],
+            2 => [0, 0, 1],
+            _ => {
+                if self.v == [0, 0, 0] {
+                    [0, 0, -1]
+                } else {
+                    self.v
+                }
+            }
+        }
+    }
+    fn value(&self) -> Axis {
+        let v = self.vec();
+        match (self.which % 4, self.form % 5) {
+            (0, 0 | 1 | 4) => Axis::X,
+            (1, 0 | 1 | 4) => Axis::Y,
+            (2, 0 | 1 | 4) => Axis::Z,
+            _ => Axis::try_from(Vec3::new(v[0] as f32, v[1] as f32, v[2] as f32)).unwrap(),
+        }
+    }
+    /// the argument of `axis(..)` / `plane(..)`
+    fn arg(&self) -> String {
+        let v = self.vec();
+        let n = ["x", "y", "z"];
+        let w = (self.which % 4) as usize;
+        let int = |k: i8| if k < 0 { format!("({k})") } else { format!("{k}") };
+        match (w, self.form % 5) {
+            (0..=2, 0) => format!("\"{}\"", n[w]),
+            (0..=2, 1) => format!("'{}'", n[w]),
+            (0..=2, 4) => n[w].to_string(),
+            (0..=1, 2) => format!("[{}, {}]", v[0], v[1]),
+            (_, 3) => format!("vec3({}, {}, {})", int(v[0]), int(v[1]), int(v[2])),
+            _ => format!("[{}, {}, {}]", int(v[0]), int(v[1]), int(v[2])),
+        }
+    }
+    fn text(&self) -> String {
+        format!("axis({})", self.arg())
+    }
+}
+
+impl PlaneSpec {
+    fn value(&self) -> Plane {
+        match self.named {
+            Some(k) => [Plane::XY, Plane::YZ, Plane::ZX][k as usize % 3],
+            None => Plane {
+                axis: self.axis.value(),
+                offset: self.offset.map(num).unwrap_or(0.0),
+            },
+        }
+    }
+    fn text(&self) -> String {
+        match (self.named, self.offset) {
+            (Some(k), _) => format!("plane(\"{}\")", ["xy", "yz", "zx"][k as usize % 3]),
+            (None, None) if self.axis.form % 2 == 0 => format!("plane({})", self.axis.arg()),
+            // an axis where a plane is expected: offset 0
+            (None, None) => self.axis.text(),
+            // the offset parameter is a float
+            (None, Some(o)) => format!("plane({}, {:?})", self.axis.arg(), num(o)),
+        }
+    }
 }
 
 #[derive(Clone, Debug, Serialize, Deserialize)]
@@ -315,14 +407,57 @@ impl Sh {
                 .into();
                 (transform_call("scale_uniform", &st, t, &[("scale", lit(*s))], *form % 5), tree)
             }
-            Sh::ReflectX { t, o, form } => {
+            Sh::ReflectX { t, o, form, which } => {
                 let (st, tt) = t.render();
-                let tree: Tree = fs::ReflectX {
+                let (shape, offset) = (tt, num(*o));
+                let (name, tree): (&str, Tree) = match which % 4 {
+                    0 => ("reflect_x", fs::ReflectX { shape, offset }.into()),
+                    1 => ("reflect_xy", fs::ReflectXY { shape, offset }.into()),
+                    2 => ("reflect_y", fs::ReflectY { shape, offset }.into()),
+                    _ => ("reflect_z", fs::ReflectZ { shape, offset }.into()),
+                };
+                (transform_call(name, &st, t, &[("offset", lit(*o))], *form % 5), tree)
+            }
+            Sh::Reflect { t, plane, form } => {
+                let (st, tt) = t.render();
+                let tree: Tree = fs::Reflect {
                     shape: tt,
-                    offset: num(*o),
+                    plane: plane.as_ref().map(|p| p.value()).unwrap_or(Plane::YZ),
                 }
                 .into();
-                (transform_call("reflect_x", &st, t, &[("offset", lit(*o))], *form % 5), tree)
+                let s = match (plane, form % 5) {
+                    (None, 0) => format!("reflect(#{{ shape: {st} }})"),
+                    (None, _) => format!("reflect({st})"),
+                    (Some(p), f) => transform_call("reflect", &st, t, &[("plane", p.text())], f),
+                };
+                (s, tree)
+            }
+            Sh::Rotate { t, axis, angle, center, form, order, vf } => {
+                let (st, tt) = t.render();
+                let tree: Tree = fs::Rotate {
+                    shape: tt,
+                    axis: axis.as_ref().map(|a| a.value()).unwrap_or(Axis::Z),
+                    angle: angle.map(num).unwrap_or(0.0),
+                    center: center.map(|c| v3(&c)).unwrap_or(Vec3::new(0.0, 0.0, 0.0)),
+                }
+                .into();
+                let a = angle.map(lit);
+                let c = center.map(|c| vlit(&c, *vf));
+                let ax = axis.as_ref().map(|a| a.text());
+                let s = match form % 2 {
+                    0 => format!(
+                        "rotate({})",
+                        map_of(&[("center", c), ("shape", Some(st)), ("axis", ax), ("angle", a)])
+                    ),
+                    _ => {
+                        let mut args: Vec<String> = vec![st];
+                        args.extend(a);
+                        args.extend(c);
+                        args.extend(ax);
+                        format!("rotate({})", permute(args, *order))
+                    }
+                };
+                (s, tree)
             }
             Sh::RevolveY { t, o, form } => {
                 let (st, tt) = t.render();
@@ -333,19 +468,20 @@ impl Sh {
                 .into();
                 (transform_call("revolve_y", &st, t, &[("offset", lit(*o))], *form % 5), tree)
             }
-            Sh::RotateZ { t, angle, center, form, order, vf } => {
+            Sh::RotateZ { t, angle, center, form, order, vf, which } => {
                 let (st, tt) = t.render();
-                let tree: Tree = fs::RotateZ {
-                    shape: tt,
-                    angle: angle.map(num).unwrap_or(0.0),
-                    center: center.map(|c| v3(&c)).unwrap_or(Vec3::new(0.0, 0.0, 0.0)),
-                }
-                .into();
+                let (shape, ang) = (tt, angle.map(num).unwrap_or(0.0));
+                let cen = center.map(|c| v3(&c)).unwrap_or(Vec3::new(0.0, 0.0, 0.0));
+                let (name, tree): (&str, Tree) = match which % 3 {
+                    0 => ("rotate_z", fs::RotateZ { shape, angle: ang, center: cen }.into()),
+                    1 => ("rotate_x", fs::RotateX { shape, angle: ang, center: cen }.into()),
+                    _ => ("rotate_y", fs::RotateY { shape, angle: ang, center: cen }.into()),
+                };
                 let a = angle.map(lit);
                 let c = center.map(|c| vlit(&c, *vf));
                 let s = match form % 2 {
                     0 => format!(
-                        "rotate_z({})",
+                        "{name}({})",
                         map_of(&[("shape", Some(st)), ("angle", a), ("center", c)])
                     ),
                     _ => {
@@ -353,15 +489,7 @@ impl Sh {
                         let mut args: Vec<String> = vec![st];
                         args.extend(a);
                         args.extend(c);
-                        let n = args.len();
-                        let mut k = *order as usize;
-                        let mut out = vec![];
-                        let mut pool = args;
-                        for i in (1..=n).rev() {
-                            out.push(pool.remove(k % i));
-                            k /= i;
-                        }
-                        format!("rotate_z({})", out.join(", "))
+                        format!("{name}({})", permute(args, *order))
                     }
                 };
                 (s, tree)
@@ -490,6 +618,19 @@ impl Sh {
     }
 }
 
+/// The `order`-th permutation of the arguments, comma separated
+fn permute(args: Vec<String>, order: u8) -> String {
+    let n = args.len();
+    let mut k = order as usize;
+    let mut out = vec![];
+    let mut pool = args;
+    for i in (1..=n).rev() {
+        out.push(pool.remove(k % i));
+        k /= i;
+    }
+    out.join(", ")
+}
+
 /// Move / Scale forms 0-4 as in `transform_call`; 5-8 pass a vec2 where a vec3 is
 /// expected, in the positional, map, tree + map and chained + map forms
 fn promoted_form(form: u8) -> u8 {
@@ -529,6 +670,25 @@ fn pos8() -> BoxedStrategy<i16> {
     (1i16..=40).boxed()
 }
 
+/// names counted in the evidence (a name followed by an opening parenthesis;
+/// `rotate(` does not match `rotate_x(`, but `)\.move(` counts as move)
+const CTORS: [&str; 28] = [
+    "circle", "rectangle", "sphere", "box", "union", "blend", "intersection", "inverse", "difference", "move",
+    "scale", "scale_uniform", "reflect", "reflect_x", "reflect_xy", "reflect_y", "reflect_z", "rotate", "rotate_x",
+    "rotate_y", "rotate_z", "revolve_y", "extrude_z", "loft_z", "repeat_x", "axis", "plane", "vec3",
+];
+
+fn axis_spec() -> BoxedStrategy<AxisSpec> {
+    (0u8..4, [-4i8..=4, -4i8..=4, -4i8..=4], 0u8..5)
+        .prop_map(|(which, v, form)| AxisSpec { which, v, form })
+        .boxed()
+}
+fn plane_spec() -> BoxedStrategy<PlaneSpec> {
+    (prop::option::weighted(0.3, 0u8..3), axis_spec(), prop::option::of(k8()))
+        .prop_map(|(named, axis, offset)| PlaneSpec { named, axis, offset })
+        .boxed()
+}
+
 fn expr(depth: u32) -> BoxedStrategy<E> {
     let leaf = prop_oneof![3 => Just(E::X), 3 => Just(E::Y), 2 => Just(E::Z)];
     leaf.prop_recursive(depth, 40, 4, |inner| {
@@ -564,9 +724,12 @@ fn expr(depth: u32) -> BoxedStrategy<E> {
             (b(t.clone()), [k8(), k8(), k8()], 0u8..9, vf()).prop_map(|(t, o, form, vf)| Sh::Move { t, o, form, vf }),
             (b(t.clone()), [pos8(), pos8(), pos8()], 0u8..9, vf()).prop_map(|(t, s, form, vf)| Sh::Scale { t, s, form, vf }),
             (b(t.clone()), pos8(), 0u8..5).prop_map(|(t, s, form)| Sh::ScaleUniform { t, s, form }),
-            (b(t.clone()), k8(), 0u8..5).prop_map(|(t, o, form)| Sh::ReflectX { t, o, form }),
-            (b(t.clone()), prop::option::of(k8()), prop::option::of([k8(), k8(), k8()]), 0u8..2, 0u8..6, vf())
-                .prop_map(|(t, angle, center, form, order, vf)| Sh::RotateZ { t, angle, center, form, order, vf }),
+            (b(t.clone()), k8(), 0u8..5, 0u8..4).prop_map(|(t, o, form, which)| Sh::ReflectX { t, o, form, which }),
+            (b(t.clone()), prop::option::of(k8()), prop::option::of([k8(), k8(), k8()]), 0u8..2, 0u8..6, vf(), 0u8..3)
+                .prop_map(|(t, angle, center, form, order, vf, which)| Sh::RotateZ { t, angle, center, form, order, vf, which }),
+            (b(t.clone()), prop::option::of(axis_spec()), prop::option::of(k8()), prop::option::of([k8(), k8(), k8()]), 0u8..2, 0u8..24, vf())
+                .prop_map(|(t, axis, angle, center, form, order, vf)| Sh::Rotate { t, axis, angle, center, form, order, vf }),
+            (b(t.clone()), prop::option::of(plane_spec()), 0u8..5).prop_map(|(t, plane, form)| Sh::Reflect { t, plane, form }),
             (b(t.clone()), k8(), 0u8..5).prop_map(|(t, o, form)| Sh::RevolveY { t, o, form }),
             (b(t.clone()), k8(), k8(), 0u8..3).prop_map(|(t, lo, hi, form)| Sh::ExtrudeZ { t, lo, hi, form }),
             (b(t.clone()), pos8(), k8(), 0u8..3).prop_map(|(t, r, o, form)| Sh::RepeatX { t, r, o, form }),
@@ -662,6 +825,12 @@ impl Prop for P {
                     Fail::new("script-rejected", format!("engine error {e}\nscript:\n{script}"))
                 })?;
                 cx.ev.count("scripts_evaluated");
+                for name in CTORS {
+                    let k = script.matches(&format!("{name}(")).count() as u64;
+                    if k > 0 {
+                        cx.ev.add(&format!("ctor_{name}"), k);
+                    }
+                }
                 cx.ev.max("max_script_bytes", script.len() as u64);
                 if got != want {
                     fail!(
@@ -716,7 +885,8 @@ impl Prop for P {
         "scripts generated from a grammar together with the expected Tree built by the corresponding Rust calls: infix \
          operators + - * / % and named functions min max compare mix and or atan2 with a tree on either side and an integer \
          or float literal on the other (also in method form a.f(b)); unary functions and prefix minus; arrays of trees where \
-         a tree is expected (coerced to a union); let bindings; 18 shape constructors in the call forms that apply to each \
+         a tree is expected (coerced to a union); let bindings; all 26 shape constructors (axes and planes written axis(..) / plane(..) from names, characters, \
+         vectors or x / y / z) in the call forms that apply to each \
          (map with defaults omitted or given and keys in any order, unique-typed positional arguments in any order, ordered \
          positional, tree-first + map, chained method + map, two-tree, variadic / array / map reductions with 1-8 trees), \
          vectors written vecN(..) or as arrays, vec2 -> vec3 promotion with the default z. Oracle: structural == on Tree \
